@@ -64,6 +64,9 @@ HELPERS = {
     "ed448": HSpec("bytes", ["P0", "P1", "B"], 3, flag="isneu", final="has_low_order", cof=4, c_bits=232,
                    c_bound=1 << 224),
 }
+# helpers that call the two-scalar routine directly (no split): decided by `run_direct`
+DIRECT = {"secp256k1": "set_mul_add_mulgen_vartime"}
+HELPERS["secp256k1"] = HSpec("direct", [], 0)
 SCALAR_TYPES = ("ModInt256", "Scalar")
 POINT_ARGS = ("Q", "R")
 
@@ -242,8 +245,9 @@ class HelperInterp(AlgoInterp):
         self.ivars = {}                     # polynomial variable -> z3 Int
         self.cvars = {}                     # 'c0'/'c1' -> bit-vector variable
         self.ntests = {}                    # loop mode: Bool variable -> (Lin or PendLin) tested
+        self.direct_calls = []              # direct mode: (token, receiver Lin, u, v) of the two-scalar routine
         self.on_cut = None
-        self.prune = True
+        self.prune = (mode != "glue")       # glue paths are few: infeasible ones are discarded by counted queries
         for nm in ("k", "s"):
             v = z3.Int(nm)
             self.ivars[nm] = v
@@ -474,7 +478,7 @@ class HelperInterp(AlgoInterp):
             return SymV(z3.If(cond, ones, zero), 32, False, None, z3.Not(cond))
         if m in ("w64be", "from_w64be", "w64le", "from_w64le") or m in ("ZERO", "ONE"):
             return NotImplemented
-        if any(isinstance(v, ScalV) for v in vals):
+        if cal.self_short in SCALAR_TYPES and any(isinstance(v, ScalV) for v in vals):
             raise NotAbstractable("scalar operation %s is not modelled" % m)
         return NotImplemented
 
@@ -510,8 +514,9 @@ class HelperInterp(AlgoInterp):
             v = self.ivar(nm)
             if hs.c_bound:
                 self.int_assume.append(z3.And(v > -hs.c_bound, v < hs.c_bound))
-                B = z3.BitVecVal(hs.c_bound, w)
-                self.bv_assume.append(z3.And(e < B, e > -B))
+                B = z3.BitVecVal(hs.c_bound, w + 8)
+                ew = z3.SignExt(8, e)
+                self.bv_assume.append(z3.And(ew < B, ew > -B))
         P = lambda nm: SPoly.var(n, nm)
         if hs.corr:
             # k*(c1 + Bt*2^128) = c0 + A*2^128 (mod n), A, Bt in {-1, 0, 1}, c1 + Bt*2^128 != 0
@@ -568,4 +573,1229 @@ class HelperInterp(AlgoInterp):
             b = z3.Bool("nt%d" % len(self.ntests))
             self.ntests[b] = (m, a, list(self.path))
             return SymV(z3.If(b, z3.BitVecVal(-1, 32), z3.BitVecVal(0, 32)), 32, False, None, z3.Not(b))
+        if self.mode == "direct" and cal.trait is None and cal.self_short == self.cfg.point:
+            if m == DIRECT.get(self.curve) and len(args) == 3:
+                # contract of the two-scalar routine (its own C10 obligation): self := u*self + v*G
+                self.count(m)
+                u, v = args[1].get(), args[2].get()
+                if not (isinstance(u, ScalV) and isinstance(v, ScalV)):
+                    raise NotAbstractable("two-scalar routine called with %r, %r" % (u, v))
+                tok = "T%d" % len(self.direct_calls)
+                self.direct_calls.append((tok, self.as_lin(args[0]), u.p, v.p))
+                args[0].set(self.wrap(Lin.gen(tok)))
+                return UNIT
+            if m == "equals" and len(args) == 2:
+                self.count(m)
+                a, b_ = self.as_lin(args[0]), self.as_lin(args[1])
+                b = z3.Bool("eq%d" % len(self.ntests))
+                self.ntests[b] = ("equals", (a, b_), list(self.path))
+                return SymV(z3.If(b, z3.BitVecVal(-1, 32), z3.BitVecVal(0, 32)), 32, False, None, z3.Not(b))
         return AlgoInterp.intercept(self, fr, cal, args)
+
+
+# --------------------------------------------------------------------------
+# the glue: every path from the entry to the cut
+
+def helper_config(cfgmod, name):
+    """Config of the curve as used by props/C10.py (tables, affine type, NAF recoders)"""
+    return cfgmod(name)
+
+
+def run_glue(mir, cfg, curve, order):
+    it = HelperInterp(mir, cfg, curve, order, "glue")
+    hs = it.hs
+
+    def on_cut(interp, fr):
+        pts = {}
+        for g in hs.streams:
+            if g != "B":
+                pts[g] = interp.as_lin(fr.cell(fr.debug_local(g)).val)
+        interp.ends.append((list(interp.path), "cut", dict(recs=list(interp.rec_calls), points=pts)))
+        interp.rec_calls = interp.rec_calls[:0]
+        raise PathEnd()
+    it.on_cut = on_cut
+    n = order
+    q = Cell(it.wrap(Lin.gen("Q")))
+    r = Cell(it.wrap(Lin.gen("R")))
+    args = [q.val, Ref(r), Ref(Cell(ScalV(SPoly.var(n, "s")))), Ref(Cell(ScalV(SPoly.var(n, "k"))))]
+    returned = []
+
+    # the recoder call list must restart on every path: forks copy the frame, not the interpreter
+    orig_exec = it._exec
+
+    def _exec(fr, bb):
+        if fr.depth == 1:
+            it.rec_calls = list(getattr(fr, "_recs", []))
+        return orig_exec(fr, bb)
+    it._exec = _exec
+    it.run_forking(it.find_fn(curve, "Point", "verify_helper_vartime"), args, lambda f, rv: returned.append(rv))
+    if returned:
+        raise NotAbstractable("a path returned without reaching the cut")
+    return it
+
+
+class Q:
+    """bookkeeping of solver queries"""
+
+    def __init__(self):
+        self.n, self.secs = 0, 0.0
+
+    def ask(self, assumptions, goal, timeout=None):
+        st, secs, mdl = decide(assumptions, goal, timeout or Z3_TIMEOUT_MS)
+        self.n += 1
+        self.secs += secs
+        return st, mdl
+
+
+def _bits_needed(v):
+    return max(1, abs(int(v)).bit_length())
+
+
+def bv_linear_identity(it, terms, const=0):
+    """z3 Bool: sum coef * value(atom) + const == 0 over the integers, as a bit-vector equation at a
+    width that cannot wrap.  terms: [(coef int, atom name)]"""
+    W = _bits_needed(const) + 2
+    for c, a in terms:
+        e, sg = it.atoms[a]
+        W = max(W, e.size() + _bits_needed(c) + 2)
+    W += len(terms) + 2
+    if W > 1200:
+        return None
+    tot = z3.BitVecVal(const % (1 << W), W)
+    for c, a in terms:
+        e, sg = it.atoms[a]
+        tot = tot + _ext(e, W, sg) * z3.BitVecVal(c % (1 << W), W)
+    return tot == 0
+
+
+def split_scalar_part(p):
+    """group the monomials of p by their (k, s) part: {scalar monomial: SPoly in the other variables}"""
+    out = {}
+    for m, v in p.c.items():
+        sp = tuple(x for x in m if x in ("k", "s"))
+        rest = tuple(x for x in m if x not in ("k", "s"))
+        out.setdefault(sp, SPoly(p.n))
+        out[sp] = out[sp] + SPoly(p.n, {rest: v})
+    return out
+
+
+def integer_identity(it, p, hyp, q):
+    """p (a polynomial whose coefficients are to be read as integers) vanishes coefficient-wise: every
+    (k, s)-coefficient is a linear combination of atoms that z3 proves to be 0 over the integers"""
+    for sp, co in split_scalar_part(p).items():
+        terms, const = [], 0
+        for m, v in co.c.items():
+            c = co.centered(v)
+            if len(m) == 0:
+                const += c
+            elif len(m) == 1 and m[0] in it.atoms:
+                terms.append((c, m[0]))
+            else:
+                return "unknown", "coefficient of %s is not linear in the machine integers: %r" % (sp or "1", co)
+        goal = bv_linear_identity(it, terms, const)
+        if goal is None:
+            return "unknown", "coefficient of %s needs a modular argument: %r" % (sp or "1", co)
+        st, mdl = q.ask(hyp, goal)
+        if st != "unsat":
+            return ("sat" if st == "sat" else "unknown"), (mdl if st == "sat" else "solver: " + st)
+    return "unsat", None
+
+
+def canonical_form(it, atom, hyp, q):
+    """value(atom) = sigma * c + j * 2^128 for c in (c0, c1): guessed from models, proved by z3.
+    Returns (polynomial, (c, sigma, j), None) or (None, best guess, counter-models of the best guess)"""
+    e, sg = it.atoms[atom]
+    W = max(e.size(), it.hs.c_bits) + 8
+    js = (-2, -1, 0, 1, 2) if it.hs.corr else (0,)
+
+    def val(mdl, x, signed):
+        v = mdl.eval(x, model_completion=True).as_long()
+        if signed and v >> (x.size() - 1):
+            v -= 1 << x.size()
+        return v
+
+    def goal_of(ce, sigma, j):
+        return _ext(e, W, sg) == _ext(ce, W, True) * z3.BitVecVal(sigma % (1 << W), W) + \
+            z3.BitVecVal((j * T128) % (1 << W), W)
+    tried = set()
+    best = None
+    for mdl in sample_models(it, hyp, None, 6):
+        av = val(mdl, e, sg)
+        for cn, ce in it.cvars.items():
+            cv = val(mdl, ce, True)
+            if abs(cv) < 2:
+                continue            # too special to tell the forms apart
+            for sigma in (1, -1):
+                for j in js:
+                    if av != sigma * cv + j * T128 or (cn, sigma, j) in tried:
+                        continue
+                    tried.add((cn, sigma, j))
+                    goal = goal_of(ce, sigma, j)
+                    st, mdl2 = q.ask(hyp, goal)
+                    if st == "unsat":
+                        P = SPoly.var(it.n, cn) * sigma + SPoly.const(it.n, j * T128)
+                        return P, (cn, sigma, j), None
+                    if st == "sat" and best is None:
+                        best = ((cn, sigma, j), goal)
+    if best is None:
+        return None, None, []
+    return None, best[0], sample_models(it, hyp, best[1], 10)
+
+
+def sample_models(it, hyp, goal, maxn):
+    """models of hyp (and of `not goal` when given), diversified over sign and size of c0, c1: small
+    coprime-looking values first (the native replay needs a scalar whose real split is that pair)"""
+    s = z3.Solver()
+    s.set("timeout", 10000)
+    for h in hyp:
+        s.add(h)
+    if goal is not None:
+        s.add(z3.Not(goal))
+    out, seen = [], set()
+    names = sorted(it.cvars)
+
+    def key(mdl):
+        return tuple(mdl.eval(it.cvars[nm], model_completion=True).as_long() for nm in names)
+    w = it.hs.c_bits
+
+    def constrain(nm, neg, bits):
+        e = it.cvars[nm]
+        cs = [e < -2 if neg else e > 2]
+        if bits is not None:
+            B = z3.BitVecVal(1 << bits, w)
+            cs += [e < B, e > -B]
+            if nm == "c1":
+                cs.append(z3.Extract(0, 0, e) == 1)
+        return cs
+    for bits in (12, 40, 100, None):
+        for sg0 in (False, True):
+            for sg1 in (False, True):
+                if len(out) >= maxn:
+                    return out
+                for which in (names, ["c1"], ["c0"]):
+                    s.push()
+                    for nm, neg in zip(names, (sg0, sg1)):
+                        if nm in which and nm in it.cvars:
+                            s.add(constrain(nm, neg, bits))
+                    r = s.check()
+                    mdl = s.model() if r == z3.sat else None
+                    s.pop()
+                    if mdl is not None:
+                        kk = key(mdl)
+                        if kk not in seen:
+                            seen.add(kk)
+                            out.append(mdl)
+                        break
+    if not out and s.check() == z3.sat:
+        out.append(s.model())
+    return out
+
+
+def model_values(it, mdl):
+    out = {}
+    if mdl is None:
+        return out
+    for nm, e in it.cvars.items():
+        v = mdl.eval(e, model_completion=True).as_long()
+        if v >> (e.size() - 1):
+            v -= 1 << e.size()
+        out[nm] = v
+    for nm in ("k", "s", "A", "Bt"):
+        if nm in it.ivars:
+            try:
+                out[nm] = mdl.eval(it.ivars[nm], model_completion=True).as_long()
+            except Exception:  # noqa
+                pass
+    return out
+
+
+def recoder_arg(it, method, vals):
+    """(bit-vector value, domain condition, description) of an integer recoder argument"""
+    from engines.polyid.recoders import NAFS
+    spec = NAFS[it.curve][method]
+
+    def bvof(v, bits):
+        if isinstance(v, SymV):
+            return v.e
+        if isinstance(v, IntV):
+            return z3.BitVecVal(v.v, bits)
+        raise NotAbstractable("recoder argument %r" % (v,))
+    if spec.arg == "u129":
+        # the recoder reads nh only through `(nh as u128) << 127`, i.e. its low bit (lemma `:high-word`)
+        h, l = bvof(vals[0], 32), bvof(vals[1], 128)
+        e = z3.Concat(z3.BitVecVal(0, 31), z3.Extract(0, 0, h), l)
+        dom = z3.ULT(e, z3.BitVecVal((1 << 129) - 16, 160))
+        return e, dom, "(nh mod 2)*2^128 + nl < 2^129 - 16"
+    if spec.arg == "u128":
+        e = bvof(vals[0], 128)
+        top = spec.max_value or (1 << 128)
+        return e, z3.ULT(e, z3.BitVecVal(top, 128)) if top < (1 << 128) else z3.BoolVal(True), "n < %#x" % top
+    if spec.arg == "bytes28":
+        bs = vals[0].fields
+        if len(bs) != 28:
+            raise NotAbstractable("half-width recoder argument of %d bytes" % len(bs))
+        e = z3.Concat(*[bvof(b, 8) for b in reversed(bs)])
+        return e, z3.BoolVal(True), "28 bytes"
+    raise NotAbstractable("recoder argument kind " + spec.arg)
+
+
+def decide_glue(it):
+    """per finished path: the claims of the module docstring.  Returns dict(paths, fails, unknown, ...)"""
+    hs = it.hs
+    n = it.n
+    q = Q()
+    res = {"paths": 0, "cuts": 0, "panics": 0, "fails": [], "unknown": [], "models": [], "shapes": set()}
+    base = list(it.int_assume) + list(it.bv_assume)
+    for path, kind, payload in it.ends:
+        res["paths"] += 1
+        hyp = base + list(path)
+        if kind == "panic":
+            res["panics"] += 1
+            st, mdl = q.ask(hyp, z3.BoolVal(False))
+            if st == "sat":
+                res["fails"].append("a panic is reachable: " + payload)
+                res["models"].append(("panic", model_values(it, mdl), None))
+            elif st != "unsat":
+                res["unknown"].append("panic path (%s): %s" % (payload, st))
+            continue
+        # feasibility (vacuous paths are dropped; a path that z3 cannot classify is kept)
+        st, _ = q.ask(hyp, z3.BoolVal(False))
+        if st == "unsat":
+            continue
+        res["cuts"] += 1
+        recs, pts = payload["recs"], payload["points"]
+        if len(recs) != hs.nrec:
+            res["fails"].append("%d recoder calls before the cut" % len(recs))
+            continue
+        role = {}
+        ss = None
+        bad = None
+        for (method, vals, nd), g in zip(recs, hs.streams):
+            if g == "B":
+                if not (len(vals) == 1 and isinstance(vals[0], ScalV)):
+                    bad = "the generator's multiplier is not a scalar"
+                    break
+                ss = vals[0].p
+                continue
+            L_ = pts[g]
+            nz = {kk: vv for kk, vv in L_.c.items() if not (isinstance(vv, int) and vv == 0)}
+            if len(nz) != 1:
+                bad = "%s is not a signed input point: %r" % (g, L_)
+                break
+            (gen, mu), coef = list(nz.items())[0]
+            if gen not in POINT_ARGS or mu or not isinstance(coef, int) or coef not in (1, -1) or gen in role:
+                bad = "%s is not a signed input point: %r" % (g, L_)
+                break
+            e, dom, domtxt = recoder_arg(it, method, vals)
+            role[gen] = dict(sign=coef, e=e, dom=dom, domtxt=domtxt, atom=it.atom(e, False), method=method, nd=nd,
+                             stream=g)
+        if bad or ss is None or set(role) != set(POINT_ARGS):
+            res["fails"].append(bad or "the three multipliers are not (generator, +-R, +-Q)")
+            continue
+        res["shapes"].add((role["R"]["sign"], role["Q"]["sign"]))
+        tag = "path %d (R%+d, Q%+d)" % (res["paths"], role["R"]["sign"], role["Q"]["sign"])
+
+        def fail(what, mdl):
+            res["fails"].append("%s: %s" % (tag, what))
+            res["models"].append((what, model_values(it, mdl), dict(eR=role["R"]["sign"], eQ=role["Q"]["sign"])))
+
+        # (a) domains of the recoders
+        for gen in POINT_ARGS:
+            d = role[gen]
+            goal = d["dom"]
+            for si, first in hs.top_zero:
+                if hs.streams[si] == d["stream"]:
+                    goal = z3.And(goal, z3.ULT(d["e"], z3.BitVecVal(1 << (first - 1), d["e"].size())))
+            st, mdl = q.ask(hyp, goal)
+            if st == "sat":
+                fail("multiplier of %s outside the recoder's domain (%s)" % (gen, d["domtxt"]), mdl)
+            elif st != "unsat":
+                res["unknown"].append("%s: domain of %s: %s" % (tag, gen, st))
+        # (b) ss = s * C1', C1' := -sign(R) * d_R   (integer identity between machine integers)
+        aR, aQ = role["R"]["atom"], role["Q"]["atom"]
+        C1 = SPoly.var(n, aR) * (-role["R"]["sign"])
+        C0 = SPoly.var(n, aQ) * (-role["Q"]["sign"])
+        st, info = integer_identity(it, ss - SPoly.var(n, "s") * C1, hyp, q)
+        if st == "sat":
+            fail("the generator's multiplier is not s*C1 with C1 = -(sign on R)*(multiplier of R)", info)
+        elif st != "unsat":
+            res["unknown"].append("%s: s*C1: %s" % (tag, info))
+        # (c) k*C1' = C0' (mod n): through the canonical forms of the two multipliers
+        cR = canonical_form(it, aR, hyp, q)
+        cQ = canonical_form(it, aQ, hyp, q)
+        stop = False
+        for gen, cf in (("R", cR), ("Q", cQ)):
+            if cf[0] is not None:
+                continue
+            stop = True
+            if cf[1] is None:
+                res["unknown"].append("%s: multiplier of %s is not of the form +-c + j*2^128" % (tag, gen))
+                continue
+            cn, sigma, j = cf[1]
+            what = "multiplier of %s is not %s%s%s for every split result of this path" % (
+                gen, "-" if sigma < 0 else "", cn, (" %+d*2^128" % j) if j else "")
+            if cf[2]:
+                for mdl in cf[2]:
+                    fail(what, mdl)
+            else:
+                res["unknown"].append("%s: %s (no model)" % (tag, what))
+        if stop:
+            continue
+        C1c = cR[0] * (-role["R"]["sign"])
+        C0c = cQ[0] * (-role["Q"]["sign"])
+        if cR[1][0] != "c1" or cQ[1][0] != "c0":
+            fail("multipliers attached to the wrong points (R gets %s, Q gets %s)" % (cR[1][0], cQ[1][0]), None)
+            continue
+        cond, red = it.congruent_zero(SPoly.var(n, "k") * C1c - C0c)
+        st, mdl = q.ask(hyp, cond)
+        if st == "sat":
+            fail("k*C1 != C0 (mod n)", mdl)
+        elif st != "unsat":
+            res["unknown"].append("%s: k*C1 = C0: %s" % (tag, st))
+        # (d) C1' != 0 (mod n)
+        c1i = it.poly_int(C1c)
+        st, mdl = q.ask(hyp, z3.And(c1i > -n, c1i < n))
+        if st != "unsat":
+            res["unknown"].append("%s: |C1| < n: %s" % (tag, st))
+        extra = [c1i == 0]
+        if hs.corr:
+            # under C1' = 0 the contract becomes linear: c1 = -sigma*j*2^128
+            cn, sigma, j = cR[1]
+            c1val = SPoly.const(n, -sigma * j * T128)
+            (x, y), rhs = it.rules[0]
+            Hp = (SPoly.var(n, "k") * c1val - rhs).subst("c1", c1val)
+            extra.append(it.poly_int(Hp.normalised()) % n == 0)
+        st, mdl = q.ask(hyp + extra, z3.BoolVal(False))
+        if st == "sat":
+            fail("C1 = 0 (mod n): the test would accept everything", mdl)
+        elif st != "unsat":
+            res["unknown"].append("%s: C1 != 0: %s" % (tag, st))
+    # side conditions collected by the interpreter (bounds checks, ...)
+    side = {}
+    for lab, c in it.side:
+        side.setdefault(lab, []).append(c)
+    for lab, cs in side.items():
+        st, mdl = q.ask(base, z3.And(cs))
+        if st == "sat":
+            res["fails"].append("side condition fails: " + lab)
+            res["models"].append((lab, model_values(it, mdl), None))
+        elif st != "unsat":
+            res["unknown"].append("side condition %s: %s" % (lab, st))
+    res["queries"], res["secs"] = q.n, q.secs
+    res["shapes"] = sorted(res["shapes"])
+    res["ops"] = dict(it.ops)
+    res["fns"] = sorted(nm for nm in it.executed if "::<impl" in nm)
+    res["contract"] = getattr(it, "contract", "")
+    return res
+
+
+# --------------------------------------------------------------------------
+# native confirmation (engines/polyid/replay.py, request `vh`)
+
+def _inv_mod(a, n):
+    try:
+        return pow(a % n, -1, n)
+    except ValueError:
+        return None
+
+
+def scalars_from_models(curve, order, models, limit=40):
+    """scalars k whose real split may be the (c0, c1) of a solver model: k = (c0 + A 2^128)/(c1 + B 2^128)"""
+    hs = HELPERS[curve]
+    out, seen = [], set()
+    for what, vals, signs in models:
+        ks = []
+        if "k" in vals and what in ("panic", "k*C1 != C0 (mod n)", "C1 = 0 (mod n): the test would accept everything"):
+            ks.append(vals["k"] % order)
+        if "c0" in vals and "c1" in vals:
+            corr = (-1, 0, 1) if hs.corr else (0,)
+            for A in corr:
+                for B in corr:
+                    den = vals["c1"] + B * T128
+                    iv = _inv_mod(den, order) if den else None
+                    if iv is not None:
+                        ks.append((vals["c0"] + A * T128) * iv % order)
+        for k in ks:
+            if k not in seen:
+                seen.add(k)
+                out.append((what, k))
+    return out[:limit]
+
+
+def native_helper_check(K4, models_mod, rp, curve, order, rng, ks, count):
+    """the helper's Boolean against s*G = R + k*Q (times the cofactor), on true and false equations.
+    Returns (checked, mismatch dict | None, error)"""
+    m = models_mod[K4.CURVES[curve]["model"]]
+    B = K4.base_point(rp, curve)
+    if B is None:
+        return 0, None, "cannot read the base point"
+    SL, EL = K4.SCALAR_LEN[curve], K4.ENC[curve]
+    special = [0, 1, order - 1, 2, (order - 1) // 2, (1 << 128) % order, _inv_mod(1 << 128, order)]
+    cases = [("solver model: " + w, k) for w, k in ks]
+    cases += [("special", k) for k in special]
+    cases += [("random", rng.randrange(order)) for _ in range(max(0, count - len(special)))]
+    lines, exps = [], []
+    for what, k in cases:
+        Qp = m.c_rand(rng)
+        s = rng.randrange(order)
+        Rt = m.c_add(K4.c_mul(m, s, B), m.c_neg(K4.c_mul(m, k, Qp)))
+        for truth, Rp in ((True, Rt), (False, m.c_add(Rt, B))):
+            fq = m.c_embed(Qp, m.c_scalar(rng))
+            fr = m.c_embed(Rp, m.c_scalar(rng))
+            lines.append("%s vh 0 %s %s %s" % (curve, " ".join(int(x).to_bytes(EL, "little").hex() for x in fq + fr),
+                                               int(s).to_bytes(SL, "little").hex(), int(k).to_bytes(SL, "little").hex()))
+            exps.append((what, k, s, truth))
+    res = K4.run_lines(rp, lines)
+    checked = 0
+    for (what, k, s, truth), r_, ln in zip(exps, res, lines):
+        if r_[0] == "error":
+            return checked, None, r_[1]
+        key = "%s.verify_helper_vartime" % curve
+        if r_[0] == "panic":
+            return checked, dict(key=key, k=hex(k), s=hex(s), request=ln, native="panic", expected=truth,
+                                 origin=what), None
+        checked += 1
+        got, ref = bool(r_[1][0]), bool(r_[1][1])
+        if ref != truth:
+            return checked, None, "reference expression disagrees with the Python group (k=%#x)" % k
+        if got != truth:
+            return checked, dict(key=key, k=hex(k), s=hex(s), request=ln, helper_returned=got, expected=truth,
+                                 origin=what), None
+    return checked, None, None
+
+
+def native_low_order_check(K4, models_mod, rp, curve, rng, count=6):
+    """ground facts for the final test: has_low_order(P) <=> cofactor*P = 0 on torsion points, random points and
+    their sums; isneutral for the prime-order curve"""
+    m = models_mod[K4.CURVES[curve]["model"]]
+    hs = HELPERS[curve]
+    EL = K4.ENC[curve]
+    pts = []
+    if hasattr(m, "c_special"):
+        tors = [p for _, p in m.c_special()]
+    else:
+        tors = [m.c_neutral()]
+    for t in tors:
+        pts.append(t)
+    for _ in range(count):
+        P = m.c_rand(rng)
+        pts.append(P)
+        for t in tors:
+            pts.append(m.c_add(P, t))
+    lines, exps = [], []
+    for P in pts:
+        X = P
+        for _ in range(hs.cof.bit_length() - 1):
+            X = m.c_add(X, X)
+        exps.append(m.c_same(X, m.c_neutral()))
+        lines.append("%s low_order 0 %s" % (curve, " ".join(int(x).to_bytes(EL, "little").hex()
+                                                          for x in m.c_embed(P, m.c_scalar(rng)))))
+    res = K4.run_lines(rp, lines)
+    n = 0
+    for e, r_, ln in zip(exps, res, lines):
+        if r_[0] != "ok":
+            return n, None, "low_order request failed: %r" % (r_[:2],)
+        n += 1
+        if bool(r_[1][0]) != e:
+            return n, dict(key="%s.%s" % (curve, hs.final), request=ln, native=bool(r_[1][0]), expected=e), None
+    return n, None, None
+
+
+# --------------------------------------------------------------------------
+# the loop: column lemmas from the cut to the return
+
+class PendZ(PendLin):
+    """PendLin guarded by the loop's "still neutral" flag: while the flag holds the accumulator IS the
+    neutral (part of the loop invariant), so it may be used without applying doublings"""
+    __slots__ = ("zz",)
+
+    def __init__(self, W, N, zz):
+        PendLin.__init__(self, W, N)
+        self.zz = zz
+
+
+class LoopInterp(HelperInterp):
+    def as_lin(self, v, what="point", pending=False):
+        try:
+            return HelperInterp.as_lin(self, v, what, pending)
+        except NotAbstractable:
+            l0 = HelperInterp.as_lin(self, v, what, True)
+            if isinstance(l0, PendZ) and not pending:
+                st, _, _ = decide(self.assumptions + list(self.path), l0.zz, 10000)
+                if st == "unsat":
+                    return Lin()
+            raise
+
+
+def loop_geometry(curve, Lloop):
+    """(number of columns, first column handled before the loop)"""
+    hs = HELPERS[curve]
+    top = max([first for _, first in hs.top_zero] + [Lloop])
+    ncol = Lloop + (2 if hs.top_zero else 0)
+    return ncol, Lloop
+
+
+def loop_scout(mir, cfg, curve, order):
+    """length of the main loop, with all digits fixed to zero"""
+    it = LoopInterp(mir, cfg, curve, order, "loop")
+    it.col_range = (1, 0, 1)
+    info = {"L": None}
+    top = curve + "::"
+
+    def hook(interp, fr, k, it_ref):
+        if not (fr.depth == 1 and fr.body.name.endswith("::verify_helper_vartime")):
+            return
+        rng = it_ref.get()
+        if isinstance(rng, Agg) and rng.path and rng.path.endswith("Rev") and info["L"] is None:
+            info["L"] = rng.fields[0].fields[1].v
+    it.loop_hook = hook
+    n = order
+    args = [it.wrap(Lin.gen("Q")), Ref(Cell(it.wrap(Lin.gen("R")))), Ref(Cell(ScalV(SPoly.var(n, "s")))),
+            Ref(Cell(ScalV(SPoly.var(n, "k"))))]
+    it.run_forking(it.find_fn(curve, "Point", "verify_helper_vartime"), args, lambda f, rv: None)
+    return info["L"]
+
+
+def loop_chunk(mir, cfg, curve, order, lo, hi, Lloop):
+    """column lemmas for columns lo..hi (plus the segment before the loop when the chunk holds the top column and
+    the segment after it when it holds column 0)"""
+    t0 = time.time()
+    hs = HELPERS[curve]
+    ncol, _ = loop_geometry(curve, Lloop)
+    it = LoopInterp(mir, cfg, curve, order, "loop")
+    it.prune = False
+    it.col_range = (lo, hi, ncol)
+    st = {"cur": None, "items": [], "init": None, "gens": None, "havoc": None, "inv": []}
+    fname = "verify_helper_vartime"
+
+    def mine(fr):
+        return fr.depth == 1 and fr.body.name.endswith("::" + fname)
+
+    def on_cut(interp, fr):
+        # arbitrary points in place of the two signed inputs; the streams multiply them (in call order)
+        gens = []
+        for i, g in enumerate(hs.streams):
+            if g == "B":
+                gens.append(Lin.gen("B"))
+                continue
+            L_ = Lin.gen(g)
+            fr.cell(fr.debug_local(g)).val = interp.wrap(L_)
+            gens.append(L_)
+        interp.streams = [(ds, gens[i]) for i, (ds, _) in enumerate(interp.streams)]
+        # digits the loop never reads are zero (glue: domain of the multiplier; recoder: range lemma)
+        for si, first in hs.top_zero:
+            ds = interp.streams[si][0]
+            for j in range(first, len(ds)):
+                ds[j] = IntV(0, 8, True)
+    it.on_cut = on_cut
+
+    def acc_of(fr):
+        a = it.as_lin(fr.cell(fr.debug_local(hs.acc)).val, pending=True)
+        if isinstance(a, PendZ) and any(z3.simplify(c).eq(a.zz) for c in it.path):
+            return Lin()            # invariant: the accumulator is the neutral while the flag is set
+        return a
+
+    def read_state(fr):
+        zz = fr.cell(fr.debug_local(hs.flag)).val if hs.flag else BoolV(False)
+        nd = fr.cell(fr.debug_local("ndbl")).val
+        return zz, nd, acc_of(fr)
+
+    def flag_cond(zz):
+        if isinstance(zz, SymB):
+            return zz.e
+        if isinstance(zz, (BoolV, IntV)) and not isinstance(zz, SymV):
+            return bool(zz.v)
+        raise NotAbstractable("flag is %r" % (zz,))
+
+    def value(zz, nd, acc):
+        """V = flag ? 0 : acc * 2^ndbl"""
+        zc = flag_cond(zz)
+        if zc is True:
+            return Lin()
+        if isinstance(acc, PendLin):
+            if isinstance(nd, IntV) and not isinstance(nd, SymV):
+                d = z3.simplify(z3.IntVal(nd.v) - acc.N)
+            elif nd.iv is not None:
+                d = z3.simplify(nd.iv - acc.N)
+            else:
+                raise NotAbstractable("pending count without integer view")
+            if not z3.is_int_value(d) or d.as_long() < 0:
+                raise NotAbstractable("pending doublings %s" % d)
+            v = acc.W.scale(1 << d.as_long())
+        else:
+            if not (isinstance(nd, IntV) and not isinstance(nd, SymV)):
+                raise NotAbstractable("symbolic doubling count on a concrete accumulator")
+            v = acc.scale(1 << nd.v)
+        if zc is False:
+            return v
+        return Lin.ite(zc, Lin(), v)
+
+    def invariant_ok(zz, acc):
+        """flag => accumulator is the neutral"""
+        zc = flag_cond(zz)
+        if zc is False:
+            return True
+        if isinstance(acc, PendZ):
+            if zc is True:
+                return None
+            stt, _, _ = decide(it.assumptions + list(it.path), z3.Implies(zc, acc.zz), Z3_TIMEOUT_MS)
+            return True if stt == "unsat" else None
+        if isinstance(acc, PendLin):
+            return None
+        goal = z3.And([_iv(c) == 0 for c in acc.c.values()]) if acc.c else z3.BoolVal(True)
+        stt, _, _ = decide(it.assumptions + list(it.path) + ([zc] if zc is not True else []), goal, Z3_TIMEOUT_MS)
+        return True if stt == "unsat" else None
+
+    def havoc(fr, tag):
+        gens = st["gens"]
+        N = z3.Int("N_%s" % tag)
+        it.assumptions.append(z3.And(N >= 0, N <= 100000))
+        W = Lin({g: z3.Int("W_%s_%s_%d" % (tag, g[0], g[1])) for g in gens})
+        fr.cell(fr.debug_local("ndbl")).val = SymV(z3.Int2BV(N, 32), 32, False, N)
+        if hs.flag:
+            zzv = z3.Bool("zz_%s" % tag)
+            fr.cell(fr.debug_local(hs.flag)).val = SymB(zzv)
+            pl = PendZ(W, N, zzv)
+            V = Lin.ite(zzv, Lin(), W)
+        else:
+            pl = PendLin(W, N)
+            V = W
+        fr.cell(fr.debug_local(hs.acc)).val = it.wrap(pl)
+        st["havoc"] = pl
+        return V
+
+    def park(fr):
+        if hs.flag:
+            fr.cell(fr.debug_local(hs.flag)).val = BoolV(True)
+        fr.cell(fr.debug_local("ndbl")).val = IntV(0, 32)
+        fr.cell(fr.debug_local(hs.acc)).val = it.wrap(Lin())
+
+    def hook(interp, fr, k, it_ref):
+        if not mine(fr):
+            return
+        rng = it_ref.get()
+        if not (isinstance(rng, Agg) and rng.path and rng.path.endswith("Rev")):
+            return
+        inner = rng.fields[0]
+        s_, e_ = inner.fields[0].v, inner.fields[1].v
+        col = e_ - 1 if s_ < e_ else None
+        if st["gens"] is None:
+            st["gens"] = sorted({g for ds, gl in it.streams for g in gl.c})
+        if st["cur"] is not None:
+            zz, nd, acc = read_state(fr)
+            ok = invariant_ok(zz, acc)
+            st["items"].append((st["cur"]["col"], list(it.path), st["cur"]["V"], value(zz, nd, acc), ok))
+            if it.pending_paths:
+                raise PathEnd()
+            st["cur"] = None
+        elif col == Lloop - 1:
+            # first loop head of this path: the segment before the loop
+            zz, nd, acc = read_state(fr)
+            if hi == ncol - 1:
+                st["items"].append((ncol, list(it.path), None, value(zz, nd, acc), invariant_ok(zz, acc)))
+            st["init"] = True
+            if it.pending_paths:
+                raise PathEnd()
+        it.path = []
+        if col is not None and lo <= col <= hi:
+            V = havoc(fr, "c%d" % col)
+            st["cur"] = dict(col=col, V=V)
+        elif col is None and lo == 0:
+            V = havoc(fr, "fin")
+            st["cur"] = dict(col=-1, V=V)
+        else:
+            park(fr)
+    it.loop_hook = hook
+    finals = []
+
+    def on_return(fr, rv):
+        if st["cur"] is None or st["cur"]["col"] != -1:
+            return
+        finals.append((list(it.path), rv, st["cur"]["V"], st["havoc"]))
+    n = order
+    args = [it.wrap(Lin.gen("Q")), Ref(Cell(it.wrap(Lin.gen("R")))), Ref(Cell(ScalV(SPoly.var(n, "s")))),
+            Ref(Cell(ScalV(SPoly.var(n, "k"))))]
+    it.run_forking(it.find_fn(curve, "Point", fname), args, on_return)
+    # ---- decide
+    res = {"checked": 0, "fails": [], "unknown": [], "secs": 0.0, "queries": 0, "paths": len(st["items"]),
+           "init": st["init"], "ops": dict(it.ops), "fns": sorted(nm for nm in it.executed if "::<impl" in nm),
+           "cols": set(), "forks": it.nforks, "finals": len(finals)}
+
+    base_n = len(it.assumptions)
+    S = z3.Solver()
+    S.set("timeout", int(Z3_TIMEOUT_MS))
+    for a_ in it.assumptions:
+        S.add(a_)
+
+    def ask(assum, goal):
+        # one incremental solver per chunk: the digit / state assumptions are shared by all path lemmas
+        t1 = time.time()
+        S.push()
+        for a_ in assum[base_n:]:
+            S.add(a_)
+        S.add(z3.Not(goal))
+        stt = str(S.check())
+        S.pop()
+        res["secs"] += time.time() - t1
+        res["queries"] += 1
+        return stt
+
+    def column_value(col):
+        D = Lin()
+        for ds, gl in it.streams:
+            m = 0
+            while col + m * ncol < len(ds):
+                d = ds[col + m * ncol]
+                dv = d.iv if isinstance(d, SymV) else d.v
+                for g, c in gl.c.items():
+                    term = _mul_int(_iv(dv), c) if not isinstance(c, int) else _iv(dv) * c
+                    D = D + Lin({g: term * (1 << (m * ncol)) if m else term})
+                m += 1
+        return D
+    for col, path, V0, V1, inv in st["items"]:
+        res["cols"].add(col)
+        if col == ncol:
+            want = Lin()
+            for c in range(ncol - 1, Lloop - 1, -1):
+                want = want.scale(2) + column_value(c)
+            label = "segment before the loop"
+        else:
+            want = V0.scale(2) + column_value(col)
+            label = "column %d" % col
+        if inv is not True:
+            res["fails"].append("%s: the accumulator is not the neutral while the flag is set" % label)
+        keys = set(V1.c) | set(want.c)
+        goal = z3.And([_iv(V1.get(g)) == _iv(want.get(g)) for g in sorted(keys)])
+        stt = ask(it.assumptions + path, goal)
+        res["checked"] += 1
+        if stt == "sat":
+            res["fails"].append("%s: V' != 2V + D on a feasible path" % label)
+        elif stt != "unsat":
+            res["unknown"].append("%s: %s" % (label, stt))
+    for path, rv, V, pl in finals:
+        res["cols"].add(-1)
+        # the returned Boolean is the test applied to the havoc'd accumulator (pending doublings dropped)
+        if not isinstance(rv, SymB):
+            res["fails"].append("final segment: the result is not a Boolean of the final test (%r)" % (rv,))
+            continue
+        cands = [b for b, (m, a, p) in it.ntests.items() if a is pl and m == hs.final]
+        if len(cands) != 1:
+            res["fails"].append("final segment: the %s test is not applied to the accumulator" % hs.final)
+            continue
+        stt = ask(it.assumptions + path, rv.e == cands[0])
+        res["checked"] += 1
+        if stt == "sat":
+            res["fails"].append("final segment: the result is not the %s test of the accumulator" % hs.final)
+        elif stt != "unsat":
+            res["unknown"].append("final segment: %s" % stt)
+    if lo == 0 and not finals:
+        res["fails"].append("final segment: no path returned")
+    side = {}
+    for lab, c in it.side:
+        side.setdefault(lab, []).append(c)
+    for lab, cs in side.items():
+        stt = ask(it.assumptions, z3.And(cs))
+        if stt == "sat":
+            res["fails"].append("side condition fails: " + lab)
+        elif stt != "unsat":
+            res["unknown"].append("side condition %s: %s" % (lab, stt))
+    res["wall"] = time.time() - t0
+    res["cols"] = sorted(res["cols"])
+    res["streams"] = [len(ds) for ds, _ in it.streams]
+    return res
+
+
+# --------------------------------------------------------------------------
+# two small facts about the recoders that the helpers rely on
+
+def top_digit_spec():
+    """ed25519: `recode_u128_NAF(n)` with n < 2^127: the invariant y_j <= 2^(127-j) gives y_128 = 0, hence
+    digit 128 is 0 (digit 129 is never written): the helper's loop reads digits 0..127 only"""
+    from engines.polyid.recoders import Spec
+    return Spec("naf", 1, "u128", ["y"], value_bits=127, max_value=1 << 127,
+                note="instance for the verification helper: arguments below 2^127; the invariant "
+                     "y_j <= 2^(127-j) makes the remaining value 0 from digit 128 on, so digits 128 and 129 are 0")
+
+
+def highword_lemma(mir, module="p256", fname="recode_u129_NAF"):
+    """`recode_u129_NAF(nh, nl)` depends on nh through its low bit only: at the head of its loop the state
+    (y, digits written so far) is the same for nh and nh & 1"""
+    from engines.polyid.algo import _free_vars
+    t0 = time.time()
+    it = AlgoInterp(mir, Config(module))
+    nh, nl = z3.BitVec("nh", 32), z3.BitVec("nl", 128)
+    snap = {}
+
+    class Stop(Exception):
+        pass
+
+    def hook(interp, fr, k, it_ref):
+        if not fr.body.name.endswith("::" + fname) or snap:
+            return
+        y = fr.cell(fr.debug_local("y")).val
+        sd = fr.cell(fr.debug_local("sd")).val
+        snap["y"] = y.e if isinstance(y, SymV) else z3.BitVecVal(y.v, 128)
+        snap["sd"] = [d.e for d in sd.fields if isinstance(d, SymV)]
+        snap["others"] = [nm for nm, pl in fr.body.debug if nm not in ("y", "sd", "nh", "nl")]
+        raise Stop()
+    it.loop_hook = hook
+    res = {"status": "unknown", "detail": [], "queries": 0, "secs": 0.0, "fns": []}
+    try:
+        item = it.find_sibling_fn(module, "Point", fname)
+        it.run(item, [SymV(nh, 32, False), SymV(nl, 128, False)])
+        res["detail"].append("no loop reached")
+        return res
+    except Stop:
+        pass
+    except (NotAbstractable, Unsupported, MirError) as e:
+        res["detail"].append("not abstractable: %s" % str(e)[:200])
+        return res
+    res["fns"] = [nm for nm in it.executed if nm.endswith("::" + fname)]
+    # nh must not be live at the loop head except through y / sd: the loop body may not mention it
+    body = it.mir.body(*item)
+    first_loop_text = "\n".join(l for b in body.blocks.values() for l in b._lines)
+    nh_local = [pl for nm, pl in body.debug if nm == "nh"]
+    uses = len(re.findall(r"\b%s\b" % re.escape(nh_local[0]), first_loop_text)) if nh_local else -1
+    res["nh_uses"] = uses
+    goals = [snap["y"] == z3.substitute(snap["y"], (nh, nh & 1))]
+    for d in snap["sd"]:
+        goals.append(d == z3.substitute(d, (nh, nh & 1)))
+    st, secs, mdl = decide([], z3.And(goals), Z3_TIMEOUT_MS)
+    res["queries"] += 1
+    res["secs"] += secs
+    if uses != 1:
+        res["detail"].append("nh is used %d times in the function (expected once, before the loop)" % uses)
+        res["status"] = "unknown"
+    elif st == "unsat":
+        res["status"] = "ok"
+    elif st == "sat":
+        res["status"] = "fail"
+        res["detail"].append("the state at the loop head depends on more than the low bit of nh")
+        res["witness"] = dict(nh=mdl.eval(nh, model_completion=True).as_long(),
+                              nl=mdl.eval(nl, model_completion=True).as_long())
+    else:
+        res["detail"].append("solver: " + st)
+    res["wall"] = time.time() - t0
+    return res
+
+
+# --------------------------------------------------------------------------
+# helpers that are a thin wrapper around the two-scalar routine (secp256k1)
+
+def run_direct(mir, cfg, curve, order):
+    """the wrapper executed from MIR with the two-scalar routine and Point::equals as contracts:
+    result <=> (-k)*Q + s*G == R"""
+    t0 = time.time()
+    it = HelperInterp(mir, cfg, curve, order, "direct")
+    n = order
+    args = [it.wrap(Lin.gen("Q")), Ref(Cell(it.wrap(Lin.gen("R")))), Ref(Cell(ScalV(SPoly.var(n, "s")))),
+            Ref(Cell(ScalV(SPoly.var(n, "k"))))]
+    rets = []
+    it.run_forking(it.find_fn(curve, "Point", "verify_helper_vartime"), args, lambda f, rv: rets.append((list(it.path), rv)))
+    res = {"fails": [], "unknown": [], "queries": 0, "secs": 0.0, "ops": dict(it.ops),
+           "fns": sorted(nm for nm in it.executed if "::<impl" in nm), "paths": len(rets)}
+    if len(rets) != 1 or len(it.direct_calls) != 1 or len(it.ntests) != 1:
+        res["fails"].append("unexpected shape: %d paths, %d calls of the two-scalar routine, %d comparisons"
+                            % (len(rets), len(it.direct_calls), len(it.ntests)))
+        return res
+    path, rv = rets[0]
+    tok, recv, u, v = it.direct_calls[0]
+    (b, (kind, (a, b_), _)), = it.ntests.items()
+    k_, s_ = SPoly.var(n, "k"), SPoly.var(n, "s")
+
+    def is_gen(L_, g):
+        nz = {kk: vv for kk, vv in L_.c.items() if not (isinstance(vv, int) and vv == 0)}
+        return nz == {(g, 0): 1}
+    if not is_gen(recv, "Q"):
+        res["fails"].append("the two-scalar routine is not applied to Q")
+    if not (u + k_).iszero():
+        res["fails"].append("the multiplier of Q is %r, not -k" % (u,))
+    if not (v - s_).iszero():
+        res["fails"].append("the multiplier of the generator is %r, not s" % (v,))
+    if not ((is_gen(a, tok) and is_gen(b_, "R")) or (is_gen(b_, tok) and is_gen(a, "R"))):
+        res["fails"].append("the comparison is not between the combination and R")
+    if not isinstance(rv, SymB):
+        res["fails"].append("the result is not the comparison's Boolean")
+    else:
+        st, secs, mdl = decide(path, rv.e == b, Z3_TIMEOUT_MS)
+        res["queries"] += 1
+        res["secs"] += secs
+        if st == "sat":
+            res["fails"].append("the result is not (combination == R)")
+        elif st != "unsat":
+            res["unknown"].append("result query: " + st)
+    res["wall"] = time.time() - t0
+    return res
+
+
+# --------------------------------------------------------------------------
+# wiring for props/C10.py
+
+LOOP_CURVES = ["p256", "ed25519", "ed448"]
+LOOP_QUICK = ["p256", "ed25519"]
+NCHUNK = 64
+KEYFMT = "%s.verify_helper_vartime"
+
+
+def plan(mir, cfgfn, order_of, tier, curve_sel, Obligation):
+    """(obligations, tasks, meta).  tasks are tuples starting with 'h...' for `work`"""
+    obs, tasks, meta = [], [], []
+    glue_curves = [c for c in HELPERS if c in curve_sel] or list(HELPERS)
+    loop_curves = [c for c in LOOP_CURVES if c in curve_sel] or (LOOP_QUICK if tier == "quick" else LOOP_CURVES)
+    for c in glue_curves:
+        hs = HELPERS[c]
+        if hs.kind == "direct":
+            o = Obligation("%s.verify_helper_vartime:glue" % c, "P", [], "all k, s, Q, R (scalars: free commutative ring "
+                           "modulo n; points: free module)",
+                           "the wrapper executed from MIR with the two-scalar routine (its own obligation) and "
+                           "Point::equals (C06) as contracts: the result is ((-k)*Q + s*G == R)")
+            kind = "hdirect"
+        else:
+            o = Obligation("%s.verify_helper_vartime:glue" % c, "P", [],
+                           "all k, s; every split_vartime result admitted by its contract; every path from the entry to "
+                           "the last recoder call",
+                           "the multipliers handed to the wNAF recoders are d_R on e_R*R, d_Q on e_Q*Q (e = +-1) and ss on "
+                           "the generator with C1 := -e_R*d_R, C0 := -e_Q*d_Q satisfying ss = s*C1 (mod n), k*C1 = C0 "
+                           "(mod n), C1 != 0 (mod n), d_R and d_Q inside the recoders' proved domains; no panic is "
+                           "reachable.  Hence sum = C1*(s*G - R - k*Q)")
+            kind = "hglue"
+        o.hint = dict(curve=c, func="verify_helper_vartime", helper=kind)
+        o.candidate = False
+        obs.append(o)
+        meta.append((kind, o, [len(tasks)], c))
+        tasks.append((kind, c))
+    if "p256" in glue_curves:
+        o = Obligation("p256.recode_u129_NAF:high-word", "P", [], "all (nh, nl)",
+                       "the recoder reads `nh` once, as `(nh as u128) << 127`: at the head of its loop the state is the "
+                       "same for nh and nh & 1 (the helper passes !(h + carry), whose upper 31 bits are not zero when "
+                       "the value is 2^128)")
+        o.hint = dict(curve="p256", func="recode_u129_NAF", helper="hlemma")
+        o.candidate = False
+        obs.append(o)
+        meta.append(("hlemma", o, [len(tasks)], "p256"))
+        tasks.append(("hlemma", "highword"))
+    if "ed25519" in glue_curves:
+        sp = top_digit_spec()
+        o = Obligation("ed25519.recode_u128_NAF:contract[n<2^127]", "P", [], "all n < 2^127",
+                       "wNAF contract of the recoder on the helper's domain. " + sp.note)
+        o.hint = dict(curve="ed25519", func="recode_u128_NAF", helper="hlemma")
+        o.candidate = False
+        obs.append(o)
+        meta.append(("hlemma", o, [len(tasks)], "ed25519"))
+        tasks.append(("hlemma", "topdigit"))
+    for c in loop_curves:
+        hs = HELPERS[c]
+        o = Obligation("%s.verify_helper_vartime:column-lemmas" % c, "P", [],
+                       "all valid wNAF digit arrays (every digit 0 or odd, |d| <= 15), arbitrary points P1, P2 in place "
+                       "of +-R, +-Q, all accumulator states; free module over Z",
+                       "from the last recoder call on: windows, then from V = 0%s every loop iteration maps V to 2V + "
+                       "(digits of the column)*(their points) on every feasible path, the accumulator is the neutral "
+                       "while the flag says so, and the value returned is the %s test of the accumulator: the result is "
+                       "test(d1*P1 + d2*P2 + ss*G)" % (" (ed25519: from the two top digits of ss)" if hs.top_zero else "",
+                                                      hs.final))
+        o.hint = dict(curve=c, func="verify_helper_vartime", helper="hloop")
+        o.candidate = False
+        obs.append(o)
+        try:
+            L = loop_scout(mir, cfgfn(c), c, order_of(c))
+            if not L:
+                raise NotAbstractable("no reversed main loop found")
+        except (NotAbstractable, MirError, Unsupported) as e:
+            o.unknown("not abstractable: %s" % str(e)[:300])
+            o.not_abstractable = True
+            continue
+        ncol, _ = loop_geometry(c, L)
+        step = max(1, (ncol + NCHUNK - 1) // NCHUNK)
+        mine = []
+        for lo in range(0, ncol, step):
+            mine.append(len(tasks))
+            tasks.append(("hloop", c, lo, min(ncol - 1, lo + step - 1), L))
+        meta.append(("hloop", o, mine, c, ncol))
+    return obs, tasks, meta
+
+
+def work(mir, cfgfn, order_of, task, timeout_ms):
+    global Z3_TIMEOUT_MS
+    Z3_TIMEOUT_MS = timeout_ms
+    kind = task[0]
+    try:
+        if kind == "hglue":
+            c = task[1]
+            it = run_glue(mir, cfgfn(c), c, order_of(c))
+            return decide_glue(it)
+        if kind == "hdirect":
+            c = task[1]
+            return run_direct(mir, cfgfn(c), c, order_of(c))
+        if kind == "hlemma":
+            if task[1] == "highword":
+                return highword_lemma(mir)
+            from engines.polyid.recoders import recoder_task
+            return recoder_task(mir, "ed25519", "recode_u128_NAF", top_digit_spec(), timeout_ms)
+        if kind == "hloop":
+            _, c, lo, hi, L = task
+            return loop_chunk(mir, cfgfn(c), c, order_of(c), lo, hi, L)
+    except NotAbstractable as e:
+        return {"na": str(e)[:300]}
+    raise ValueError("unknown helper task %r" % (task,))
+
+
+def collect(meta, tasks, res, z3_version):
+    """fill the obligations from the workers' results; returns a machinery error or None"""
+    merr = None
+    for entry in meta:
+        kind, o, idxs, c = entry[:4]
+        fails, unk, secs, q, fns = [], [], 0.0, 0, set()
+        na = None
+        vals = []
+        for i in idxs:
+            stt, val = res[i]
+            if stt != "ok":
+                unk.append("task %r: %s %s" % (tasks[i][1:4], stt, str(val)[:200]))
+                if stt == "err":
+                    merr = merr or "helper task %r: %s" % (tasks[i], str(val)[:500])
+                continue
+            if "na" in val:
+                na = val["na"]
+                continue
+            vals.append(val)
+        if na:
+            o.unknown("not abstractable: " + na)
+            o.not_abstractable = True
+            continue
+        if kind == "hlemma":
+            if not vals:
+                o.unknown("; ".join(unk))
+                continue
+            v = vals[0]
+            o.functions = v.get("fns") or []
+            solver = "%s (unsat on %d bit-vector queries)" % (z3_version, v["queries"])
+            if v["status"] == "ok":
+                if v["queries"] < 1:
+                    merr = merr or "helper lemma %s: vacuous" % o.name
+                o.ok(solver, v["secs"], v["queries"])
+            elif v["status"] == "fail":
+                o.unknown("candidate: " + "; ".join(v["detail"]), solver, v["secs"], v["queries"])
+                o.candidate = True
+            else:
+                o.unknown("; ".join(v["detail"]) or v["status"], solver, v["secs"], v["queries"])
+            continue
+        for v in vals:
+            fails += v["fails"]
+            unk += v["unknown"]
+            secs += v["secs"]
+            q += v["queries"]
+            fns |= set(v.get("fns") or [])
+        o.functions = sorted(fns)
+        o.models = [m for v in vals for m in v.get("models", [])]
+        if kind in ("hglue", "hdirect"):
+            v = vals[0] if vals else {}
+            solver = "%s (unsat on %d queries over %d paths)" % (z3_version, q, v.get("paths", 0))
+            if vals and not fails and not unk:
+                if kind == "hglue":
+                    want = {(1, 1), (1, -1), (-1, 1), (-1, -1)}
+                    if v["cuts"] < 4 or set(map(tuple, v["shapes"])) != want:
+                        merr = merr or "%s: only %d feasible paths / sign patterns %r" % (o.name, v["cuts"], v["shapes"])
+                        o.unknown("machinery: too few feasible paths", solver, secs, q)
+                        continue
+                    if v["ops"].get("split_vartime") != 1 or q < 20:
+                        merr = merr or "%s: vacuous run %r" % (o.name, v["ops"])
+                        o.unknown("machinery: vacuous run", solver, secs, q)
+                        continue
+                    o.bounds += "; contract of split_vartime used: " + v.get("contract", "")
+                    o.desc += " [%d paths, %d feasible, %d panic paths proved unreachable]" % (
+                        v["paths"], v["cuts"], v["panics"])
+        else:
+            ncol = entry[4]
+            cols, paths, finals, init = set(), 0, 0, None
+            for v in vals:
+                cols |= set(v["cols"])
+                paths += v["paths"]
+                finals += v["finals"]
+                init = init or v["init"]
+            solver = "%s (unsat on %d queries: %d path lemmas over %d columns + side conditions)" % (
+                z3_version, q, paths, ncol)
+            missing = [i for i in list(range(ncol + 1)) + [-1] if i not in cols]
+            if not fails and not unk:
+                if missing or not finals:
+                    merr = merr or "%s: no path lemma for columns %r" % (o.name, missing[:8])
+                    o.unknown("machinery: columns without lemma %r" % missing[:8], solver, secs, q)
+                    continue
+        if fails:
+            o.unknown("candidate: " + "; ".join(sorted(set(fails))[:5]), solver, secs, q)
+            o.candidate = True
+        elif unk:
+            o.unknown("; ".join(unk[:4]), solver, secs, q)
+        else:
+            o.ok(solver, secs, q)
+    return merr
+
+
+def native(K4, models_mod, rp, obs, order_of, rng):
+    """native confirmation of the helper obligations.  Returns (counters, machinery error or None)"""
+    cnt = {"checked": 0, "failed": 0, "low_order_checked": 0}
+    merr = None
+    by_curve = {}
+    for o in obs:
+        h = getattr(o, "hint", {})
+        if h.get("helper") in ("hglue", "hdirect", "hloop"):
+            by_curve.setdefault(h["curve"], []).append(o)
+    for c, lst in by_curve.items():
+        order = order_of(c)
+        cand = [o for o in lst if o.verdict != "discharged"]
+        ks = []
+        for o in lst:
+            if getattr(o, "candidate", False) and getattr(o, "models", None):
+                ks += scalars_from_models(c, order, o.models)
+        try:
+            n, mism, err = native_helper_check(K4, models_mod, rp, c, order, rng, ks, 24 if cand else 10)
+        except Exception as e:  # noqa
+            n, mism, err = 0, None, "native check error: %s" % e
+        cnt["checked"] += n
+        try:
+            n2, mism2, err2 = native_low_order_check(K4, models_mod, rp, c, rng)
+        except Exception as e:  # noqa
+            n2, mism2, err2 = 0, None, "native check error: %s" % e
+        cnt["low_order_checked"] += n2
+        if mism2 is not None:
+            cnt["failed"] += 1
+            merr = merr or "final test of %s disagrees natively with cofactor*P = 0: %r" % (c, mism2)
+        elif err2:
+            merr = merr or "final test ground facts of %s: %s" % (c, err2)
+        if mism is not None:
+            cnt["failed"] += 1
+            cands = [o for o in cand if getattr(o, "candidate", False)]
+            if not cands:
+                if not any(getattr(x, "verdict", "") == "violated" and getattr(x, "hint", {}).get("curve") == c
+                           for x in obs):
+                    merr = merr or "native disagreement of %s.verify_helper_vartime without a failed obligation: %r" % (
+                        c, mism)
+                continue
+            from_model = str(mism.get("origin", "")).startswith("solver model")
+            tgt = [o for o in cands if (o.hint["helper"] != "hloop") == from_model] or cands
+            for o in tgt:
+                o.fail(dict(mism), o.solver, o.seconds, o.queries)
+        else:
+            for o in cand:
+                if err:
+                    o.reason += " | native replay unavailable: %s" % err[:200]
+                elif getattr(o, "candidate", False):
+                    o.reason += " | native replay of %d (Q, R, s, k) cases agrees with s*G = R + k*Q" % n
+    return cnt, merr
+
+
+EVIDENCE = dict(
+    stubs={"Scalar::split_vartime -> its C11 contract (ghost corrections A, Bt for moduli above 1.73*2^253; "
+           "exact pair with a magnitude bound otherwise)": "C11 (props/C11_split.py, C11_kani.py); Ed448: documented "
+                                                           "bound, not proved (C11 corpus only)",
+           "scalar-field operations -> ring operations modulo n": "C01",
+           "Point::isneutral / has_low_order / equals -> opaque predicate of the accumulated value": "C06 (isneutral, "
+                                                                                                       "equals)"},
+    assumptions=["cut after the last recoder call: the code after the cut reads only the digit arrays and the two signed "
+                 "points (P1, P2 / P0, P1), which are replaced by arbitrary values",
+                 "dropping the pending doublings does not change the final test: the group is Z/n (P-256) or has its "
+                 "2-torsion of order dividing the cofactor, n odd",
+                 "C1 invertible modulo n: C1*(s*G - R - k*Q) has trivial n-part iff s*G - R - k*Q has",
+                 "integer identities between machine integers are decided as bit-vector equations at a width computed "
+                 "from the operand widths and coefficient sizes (no wrap)"],
+    outside=["has_low_order(P) <=> cofactor*P = 0 (Edwards curves): native ground facts on all torsion points, random "
+             "points and their sums only", "Ed448 split_vartime magnitude bound |c0|, |c1| < 2^224 (assumed)"])
